@@ -12,7 +12,8 @@
 (*   pl    "e": buffers end flush against a guard page, "s": start         *)
 (*   oc/om offset of the output / input buffer from that position (align.) *)
 (*   cls   data class: r random, h all bytes >= 0x80, f 0xFF, c counting   *)
-(*   kcls  key/nonce class: r random, z all-zero, f all-ones, b single bit *)
+(*   kcls  key/nonce class: r random, z all-zero, f all-ones, b single bit, *)
+(*         w some aligned 32-bit words zero                                  *)
 (*   tam   tamper class for decryption shapes (0 = none)                   *)
 (***************************************************************************)
 EXTENDS Naturals, Sequences, FiniteSets, TLC, Json, IOUtils, SequencesExt
@@ -32,7 +33,7 @@ AD == IF Thorough THEN ADt ELSE ADq
 ML == IF Thorough THEN MLt ELSE MLq
 
 Cls(a, m, v) == <<"r", "h", "c", "f", "r", "h">>[((a + 3 * m + (v \div 64)) % 6) + 1]
-KCls(a, m, v) == <<"r", "r", "b", "r", "z", "r", "f", "b">>[((5 * a + m + (v \div 64)) % 8) + 1]
+KCls(a, m, v) == <<"r", "w", "b", "r", "z", "r", "f", "b", "w", "r">>[((5 * a + m + (v \div 64)) % 10) + 1]
 
 Shape(v, a, m, al, pl, oc, om, tam) ==
     [v |-> v, adlen |-> a, mlen |-> m, alias |-> al, pl |-> pl, oc |-> oc, om |-> om,
